@@ -67,7 +67,7 @@ func payloadLens(thorough bool) []int {
 
 func TestCheck(t *testing.T) {
 	r := vp.New("C12", "exploration",
-		"nested loops: payload lengths x passphrases for round trip and determinism; for each ciphertext of a sub-grid every truncation length and every single-bit flip and every other passphrase, each rejection followed by a decryption of the genuine ciphertext; for every passphrase length 1..136 (thorough 1..264) every one-bit neighbour at every byte position (thorough: every bit) and the one-byte shorter / longer neighbours, through DecryptAES, DecryptValueKey and DecryptMetadata; every nonce length 0..16; value keys for 4 key types x context-ID lengths 0..64, split right away and split after a whole batch of 65 keys was created; second hash over 6 hash functions; every call sequence of length <=4 over encrypt/decrypt/second-hash of 3 pairs (history determinism, results scribbled over after use); every index of 2 multihashes x subsets of 3 records through the dhash functions and DHashClient.Find, with every stored value truncated to every length; the same workflow over the HTTP dhstore client with metadata of 1 .. 1024 bytes (every length around the encoded-size thresholds near the maximum) and context IDs of 0 / 63 / 64 bytes. Non-trivial: everything except zero-length payload with zero-length passphrase.",
+		"nested loops: payload lengths x passphrases for round trip and determinism; for each ciphertext of a sub-grid every truncation length and every single-bit flip and every other passphrase, each rejection followed by a decryption of the genuine ciphertext; for every passphrase length 1..136 (thorough 1..264) every one-bit neighbour at every byte position (thorough: every bit) and the one-byte shorter / longer neighbours, through DecryptAES, DecryptValueKey and DecryptMetadata; every nonce length 0..16; value keys for 4 key types x context-ID lengths 0..64, split right away and split after a whole batch of 65 keys was created; second hash over 6 hash functions; every call sequence of length <=4 over encrypt/decrypt/second-hash of 3 pairs (history determinism, results scribbled over after use); every index of 2 multihashes x subsets of 3 records through the dhash functions and DHashClient.Find, with every stored value truncated to every length; client.FindBatch for every list of <=3 over 8 multihashes (identity and sha2-512 ones agreeing in their first 34 / 40 bytes among them) against the single lookups; the same workflow over the HTTP dhstore client with metadata of 1 .. 1024 bytes (every length around the encoded-size thresholds near the maximum) and context IDs of 0 / 63 / 64 bytes, and with clients built from 9 combinations of the options that say where provider information comes from (metadata-only, a providers URL knowing all / one / unreachable, preload, both orders, the deprecated wrapper). Non-trivial: everything except zero-length payload with zero-length passphrase.",
 		"patterned payload/passphrase bytes; only single-bit flips and truncations of ciphertexts (other alterations rest on AES-GCM authentication, trusted)",
 		"the find workflow is driven through an in-memory DHStoreAPI and, for a subset, through the HTTP dhstore client and the provider cache over an in-memory network",
 	)
@@ -588,7 +588,114 @@ func resultSet(resp *model.FindResponse, mh multihash.Multihash) ([]string, erro
 	return out, nil
 }
 
+// checkFindBatch: the batch helper (client.FindBatch) over a store populated
+// through the dhash functions: for every list of <= 3 multihashes (repeats
+// included) over an alphabet of indexed and never-indexed multihashes, among
+// them long ones that agree in their first 34 / 40 bytes (identity multihashes
+// and sha2-512 digests): the batch answer is what the single lookups give, in
+// the order asked.
+func checkFindBatch(r *vp.Recorder) {
+	common := fixture.Bytes(48, 77)
+	idMh := func(tail byte) multihash.Multihash {
+		m, err := multihash.Encode(append(append([]byte(nil), common[:38]...), tail, tail), multihash.IDENTITY)
+		if err != nil {
+			panic(err)
+		}
+		return m
+	}
+	s512 := func(tail byte) multihash.Multihash {
+		d := append(append([]byte(nil), common...), bytes.Repeat([]byte{tail}, 16)...)
+		m, err := multihash.Encode(d, multihash.SHA2_512)
+		if err != nil {
+			panic(err)
+		}
+		return m
+	}
+	alpha := []multihash.Multihash{
+		fixture.Mh("batch-1", multihash.SHA2_256, -1), fixture.Mh("batch-2", multihash.SHA2_256, -1),
+		idMh(1), idMh(2), s512(1), s512(2), fixture.Mh("batch-never-indexed", multihash.SHA2_256, -1), idMh(3),
+	}
+	indexed := len(alpha) - 2 // the last two are never indexed (one short, one long with the common prefix)
+	st := newStore()
+	for i := 0; i < indexed; i++ {
+		st.put(alpha[i], record{fixture.Key("ed25519", i%3), []byte{byte(i), 'c'}, []byte{0x80, 0x12, byte(i)}})
+		if i%2 == 0 {
+			st.put(alpha[i], record{fixture.Key("rsa", 0), []byte{byte(i), 'd'}, []byte{0x90, 0x12, byte(i)}})
+		}
+	}
+	cl, err := client.NewDHashClient(client.WithDHStoreAPI(st), client.WithMetadataOnly(true))
+	if err != nil {
+		panic(err)
+	}
+	ctx := context.Background()
+	single := make([][]string, len(alpha))
+	for i, mh := range alpha {
+		resp, err := cl.Find(ctx, mh)
+		if err != nil {
+			r.Violation("find-batch:single-find-error", "find-batch|setup", err.Error(), nil)
+			return
+		}
+		if len(resp.MultihashResults) > 0 {
+			single[i], _ = resultSet(resp, mh)
+		}
+		if (i < indexed) != (len(single[i]) > 0) {
+			r.Violation("find-batch:single-find-wrong", "find-batch|setup", fmt.Sprintf("multihash %d: %d results", i, len(single[i])), nil)
+			return
+		}
+	}
+	var lists [][]int
+	var gen func(cur []int)
+	gen = func(cur []int) {
+		if len(cur) > 0 {
+			lists = append(lists, append([]int(nil), cur...))
+		}
+		if len(cur) == 3 {
+			return
+		}
+		for i := range alpha {
+			gen(append(cur, i))
+		}
+	}
+	gen(nil)
+	for _, l := range lists {
+		key := fmt.Sprintf("find-batch|%v", l)
+		if !r.Mine(key) {
+			continue
+		}
+		r.Eval(key, len(l) > 1)
+		var batch []multihash.Multihash
+		var want []string
+		for _, i := range l {
+			batch = append(batch, alpha[i])
+			if len(single[i]) > 0 {
+				want = append(want, fmt.Sprintf("%x=%v", []byte(alpha[i]), single[i]))
+			}
+		}
+		var resp *model.FindResponse
+		var err error
+		if pn, m := vp.Guard(func() { resp, err = client.FindBatch(ctx, cl, batch) }); pn {
+			r.Violation("find-batch:panic", key, firstLine(m), nil)
+			continue
+		}
+		if err != nil || resp == nil {
+			r.Violation("find-batch:error", key, fmt.Sprint(err), nil)
+			continue
+		}
+		var got []string
+		for _, mr := range resp.MultihashResults {
+			one, _ := resultSet(&model.FindResponse{MultihashResults: []model.MultihashResult{mr}}, mr.Multihash)
+			got = append(got, fmt.Sprintf("%x=%v", []byte(mr.Multihash), one))
+		}
+		if strings.Join(got, ";") != strings.Join(want, ";") {
+			r.Violation("find-batch:differs-from-the-single-lookups", key, fmt.Sprintf("FindBatch over multihashes %v of the alphabet returned\n %v\nthe single lookups give\n %v", l, got, want), nil)
+			continue
+		}
+		r.Outcome("find-batch-ok")
+	}
+}
+
 func checkFind(r *vp.Recorder, thorough bool) {
+	checkFindBatch(r)
 	mhs := []multihash.Multihash{fixture.Mh("content-1", multihash.SHA2_256, -1), fixture.Mh("content-2", multihash.SHA2_512, -1)}
 	unknown := fixture.Mh("never-indexed", multihash.SHA2_256, -1)
 	recs := []record{
